@@ -1555,17 +1555,22 @@ class BSP:
             except KeyError:
                 pass
             else:
-                lump_result = self._save_funcs[lump_or_game](self, data)
-                # Convenience, yield to accumulate into bytes.
-                if inspect.isgenerator(lump_result):
-                    buf = BytesIO()
-                    for chunk in lump_result:
-                        buf.write(chunk)
-                    result = buf.getvalue()
-                elif isinstance(lump_result, bytes):
-                    result = lump_result
-                else:
-                    raise ValueError(lump_result)
+                try:
+                    lump_result = self._save_funcs[lump_or_game](self, data)
+                    # Convenience, yield to accumulate into bytes.
+                    if inspect.isgenerator(lump_result):
+                        buf = BytesIO()
+                        for chunk in lump_result:
+                            buf.write(chunk)
+                        result = buf.getvalue()
+                    elif isinstance(lump_result, bytes):
+                        result = lump_result
+                    else:
+                        raise ValueError(lump_result)
+                except BaseException:
+                    # The raw lump was cleared when it was parsed, so the parsed value is all there is.
+                    self._parsed_lumps[lump_or_game] = data
+                    raise
                 if isinstance(lump_or_game, BSP_LUMPS):
                     self.lumps[lump_or_game].data = result
                 else:
